@@ -46,18 +46,38 @@ META = {
             "expression's language, case ignored; the answer is that of the first accepting dialog; the Question handed to the "
             "driver is a regexp exactly when the text is written between slashes (C09_dialog_plain, C09_dialog_plain_self, "
             "C09_dialog_regex, C09_dialog_first, C09_question_kind, C09_question_kind_matcher, C09_model_dialogs). "
+            "`annet deploy --dont-commit` builds the PATCH with do_commit=False too (CliDeployerJob.parse_result): "
+            "Model/PatchDC.v is make_patch with that flag; with do_commit=True it is the make_patch of Model/Patch.v "
+            "(C09_dc_true_is_make_patch), the flag is irrelevant for a diff that meets no %force_commit rule "
+            "(C09_dc_irrelevant_without_force_commit); with do_commit=False every row of the patch, at any depth, is a row the "
+            "diff offers to a rule that is not %force_commit, or the undo command of such a slot: no `commit` row is added and "
+            "nothing of a %force_commit rule is kept (C09_dc_no_added_row, C09_dc_no_commit_row, C09_dc_model; with "
+            "do_commit=True commit rows that are no rows of the diff do appear: C09_dc_true_adds_commit); the command of every "
+            "cmd_paths entry is a row of the patch tree or a block-exit word of the family (C09_cmd_paths_rows); with "
+            "do_commit=False a commit-class command of the stream is the command of one of the paths, for any matcher, rulebook "
+            "and number of sessions of the two shipped apply logics (C09_deploy_no_commit_beyond_paths); end to end, "
+            "diff -> make_patch(False) -> cmd_paths -> apply_deploy_rulebook(False): every commit-class command sent is a row "
+            "of the diff handled by a rule without %force_commit (C09_dc_stream). "
             "Correspondence (testing): Coq compares the model with "
             "formatter.patch, formatter.cmd_paths (with contexts) and annet.deploy.apply_deploy_rulebook on the shipped "
             "test_patch corpus, PatchTrees from the real _diff_and_patch on random rulebooks, synthetic ones (depth<=4, empty child "
             "trees, vendor block headers and near misses, contexts), a family with nested deploy rules and the same command text "
             "under several blocks, a family with interleaved apply logics, all block-structured vendors x {0,1}^2, random and "
-            "shipped deploy rulebooks, and evaluates P_C09G (= the clauses of P_C09 + c9_groups) on the real outputs; and the "
+            "shipped deploy rulebooks, and evaluates P_C09G (= the clauses of P_C09 + c9_groups) on the real outputs (the "
+            "patches of the random-rulebook family are built by _diff_and_patch with the do_commit flag of the combination "
+            "they are deployed with); a family of rulebooks with %force_commit rules at any depth (and genuine `commit` "
+            "configuration rows) runs _diff_and_patch with do_commit=True and False, cmd_paths and "
+            "apply_deploy_rulebook(do_commit=False), Coq compares both patches and the paths with Model/PatchDC.v and "
+            "evaluates P_C09DC (rows of the do_commit=False patch, its paths, the streams) on the real outputs; and the "
             "dialog model with the real MakeMessageMatcher / RulebookQuestionHandler on every shipped rule with dialogs and "
             "synthetic ones.",
     "technique": "Coq induction over block streams / patch trees / rule chains, finite vm_compute proof over the regenerated "
                  "apply() table; vm_compute differential check on real outputs",
     "note": "Theorems are about the model; the tie to the code is the regenerated Gen/Src_apply.v table and the correspondence "
-            "run (testing). Open known finding: a deploy rule with a %send_nl=0 dialog (shipped cisco/nexus `no username ...`) "
+            "run (testing). Model/PatchDC.v inherits the limits of Model/Patch.v (no %multiline bodies, comments, vendor %logic "
+            "functions: a logic that sets rule['force_commit'] itself, as huawei.bgp.undo_commit, is not modelled; the do_commit "
+            "correspondence uses the six common logics). C09_dc_stream is stated for the block-structured families whose exit words "
+            "are no commit command (all shipped ones: ex_exits_not_commit) and for the two shipped apply logics. Open known finding: a deploy rule with a %send_nl=0 dialog (shipped cisco/nexus `no username ...`) "
             "makes apply_deploy_rulebook raise. Not modelled: RouterOS/Juniper/Nokia flattening (not block structured); deploy-rule "
             "rows outside the extended rule language (2 shipped huawei rows whose group holds a blank: "
             "`undo (ftp|FTP) [ipv6] (server source|server-source)`; listed in the evidence, cases touching them are skipped); "
@@ -454,7 +474,7 @@ def witness_cases(shipped_rules: dict) -> list[dict]:
 
 def gen_cases(ctx, shipped_rules: dict) -> list[dict]:
     rng = ctx.rng("c09")
-    n_syn, n_pipe, n_ship = (8000, 2500, 1200) if ctx.thorough else (600, 220, 120)
+    n_syn, n_pipe, n_ship = (8000, 1800, 1200) if ctx.thorough else (600, 160, 120)      # n_pipe inputs, two observations each
     n_twin, n_sess = (800, 800) if ctx.thorough else (110, 110)
     cases = [gen_twin(rng) for _ in range(n_twin)] + [gen_sessions(rng) for _ in range(n_sess)]
     n_syn += len(cases)
@@ -469,12 +489,19 @@ def gen_cases(ctx, shipped_rules: dict) -> list[dict]:
             add_dups(rng, patch)
         cases.append({"kind": "synthetic", "vendor": v, "drules": drules, "deploying": drules_text(drules), "patch": patch,
                       "dup": dup})
-    while len(cases) < n_syn + n_pipe:
+    n_pipe_in = 0
+    while n_pipe_in < n_pipe:
+        # as CliDeployerJob.parse_result: the PATCH is built with the do_commit flag the stream is built with
         c = P.gen_case(rng, vendors=P.BLOCK_VENDORS)
+        if rng.random() < 0.4:
+            raise_force_commit(rng, c)
         pats = [r["pat"] for r in flatten_rules(c["rules"]) if not r["ign"] and plain_pat(r["pat"])]
         drules = gen_drules(rng, base_pats=pats or None)
-        cases.append({"kind": "pipeline", "vendor": c["vendor"], "drules": drules, "deploying": drules_text(drules),
-                      "pipeline": {k: c[k] for k in ("patching", "ordering", "old", "new")}})
+        for kind, dc in (("pipeline", 1), ("pipeline_dc0", 0)):
+            cases.append({"kind": kind, "vendor": c["vendor"], "drules": drules, "deploying": drules_text(drules),
+                          "pipeline": {k: c[k] for k in ("patching", "ordering", "old", "new")},
+                          "patch_dc": bool(dc), "combos": [[dc, 0], [dc, 1]]})
+        n_pipe_in += 1
     for i in range(n_ship):
         v = rng.choice(SHIPPED)
         rules = shipped_rules[v]["rules"]
@@ -578,7 +605,10 @@ def gen_sessions(rng) -> dict:
 
 
 def payload(c: dict, atoms, opaque) -> dict:
-    d = {"vendor": c["vendor"], "deploying": c["deploying"], "combos": COMBOS, "atoms": atoms, "opaque": opaque}
+    d = {"vendor": c["vendor"], "deploying": c["deploying"], "combos": c.get("combos", COMBOS), "atoms": atoms,
+         "opaque": opaque}
+    if "patch_dc" in c:
+        d["patch_dc"] = c["patch_dc"]
     if c["deploying"] is None and UNMODELLED.get(c["vendor"]):
         d["unmodelled"] = UNMODELLED[c["vendor"]]
     if "corpus" in c:
@@ -841,6 +871,174 @@ def run_dialogs(ctx, rendered: dict) -> dict:
     }
 
 
+# ------------------------------------------------------------------ patches built with do_commit=False
+
+DC_IMPORTS = ("From Annet Require Import Base.Str Base.Tree Model.Pattern Model.Rulebook Model.Diff Model.Order Model.Patch "
+              "Model.Blocks Model.Pipeline Model.PatchDC Gen.Src_apply Model.Deploy Spec.P_C09 Spec.P_C09DC.")
+DC_CLAUSES = {
+    "dc_rows": ("c9_dc_rows", "the patch built with do_commit=False holds a row that is not a row the diff offers to a rule "
+                              "without %force_commit (a `commit` row added after a %force_commit row, or the row of a "
+                              "%force_commit rule itself, at some depth)"),
+    "dc_paths": ("c9_dc_paths", "cmd_paths of the do_commit=False patch hold a commit-class command that is not a row of the diff"),
+    "dc_stream": ("c9_dc_stream", "a commit-class command that is not a row of the diff is sent although do_commit is False"),
+}
+DC_AGREE = {"dc_patch_true": "agree_dc_true", "dc_patch_false": "agree_dc_false", "dc_paths": "agree_dc_paths"}
+
+
+def raise_force_commit(rng, c: dict, p=None) -> int:
+    """%force_commit on rules of a pipeline case at ANY depth (harness/pipeline.py sets it with probability 0.03 per rule);
+    at least one nested rule when the rulebook has one.  Returns the number of %force_commit rules."""
+    p = rng.choice([0.15, 0.3, 0.5]) if p is None else p
+    nested = []
+
+    def walk(rs, depth):
+        for r in rs:
+            if r["ign"]:
+                continue
+            if rng.random() < p:
+                r["force_commit"] = True
+            if depth > 0:
+                nested.append(r)
+            if not r["glob"]:
+                walk(r["kids"], depth + 1)
+    walk(c["rules"], 0)
+    if nested:
+        rng.choice(nested)["force_commit"] = True
+    c["patching"] = P.rules_text(c["rules"])
+    return sum(1 for r in flatten_rules(c["rules"]) if r["force_commit"] and not r["ign"])
+
+
+def add_commit_rows(rng, c: dict) -> None:
+    """a configuration row that IS `commit` (its own rule, no %force_commit), at top level and inside blocks: the one
+    way a commit row may appear in a patch built with do_commit=False"""
+    rule = {"pat": "commit", "ign": False, "glob": False, "logic": "default", "mode": "", "parent": False,
+            "force_commit": False, "kids": []}
+    if rng.random() < 0.6:
+        c["rules"].append(dict(rule))
+        tgt = rng.choice(["new", "old", "new"])
+        c[tgt] = dict(c[tgt], commit={})
+    blocks = [r for r in c["rules"] if r["kids"] and not r["ign"] and not r["glob"]]
+    if blocks:
+        r = rng.choice(blocks)
+        if all(k["pat"] != "commit" for k in r["kids"]):
+            r["kids"].append(dict(rule))
+        new = {}
+        for row, kids in c["new"].items():
+            if P.rule_for(row, c["rules"]) is r and rng.random() < 0.7:
+                kids = dict(kids, commit={})
+            new[row] = kids
+        c["new"] = new
+    c["patching"] = P.rules_text(c["rules"])
+
+
+def gen_dcpipe(rng) -> dict:
+    c = P.gen_case(rng, vendors=P.BLOCK_VENDORS)
+    x = rng.random()
+    nfc = raise_force_commit(rng, c) if x < 0.9 else sum(1 for r in flatten_rules(c["rules"]) if r["force_commit"])
+    if rng.random() < 0.2:
+        add_commit_rows(rng, c)
+    pats = [r["pat"] for r in flatten_rules(c["rules"]) if not r["ign"] and plain_pat(r["pat"])]
+    drules = gen_drules(rng, base_pats=pats or None) if rng.random() < 0.6 else []
+    return {"kind": "dcpipe", "vendor": c["vendor"], "rules": c["rules"], "orules": c["orules"], "old": c["old"], "new": c["new"],
+            "patching": c["patching"], "ordering": c["ordering"], "deploying": drules_text(drules), "force_commit_rules": nfc}
+
+
+def dc_payload(c: dict) -> dict:
+    return {"vendor": c["vendor"], "deploying": c["deploying"],
+            "dcpipe": {k: c[k] for k in ("patching", "ordering", "old", "new")}}
+
+
+def coq_obsdc(c: dict, o: dict) -> str:
+    def patch(x):
+        return copt(None if x is None else P.coq_ptree(x))
+    runs = clist(cpair(cbool(r["df"]), copt(None if "err" in r else clist(cstr(x) for x in r["cmds"]))) for r in o["runs"])
+    return ("(ObsDC " + " ".join([
+        P.coq_vendor(c["vendor"]), P.coq_rset(c["rules"]), P.coq_ordering(c["orules"]),
+        core.cforest(c["old"]), core.cforest(c["new"]), patch(o["patch_t"]), patch(o["patch_f"]),
+        P.coq_paths(o["paths_f"]), runs]) + ")")
+
+
+def patch_rows(items) -> list:
+    return [r for i in items for r in [i["row"]] + patch_rows(i["child"] or [])]
+
+
+def eval_dcpipe(cases, outs, tag="dcpipe"):
+    terms = [coq_obsdc(c, o) for c, o in zip(cases, outs)]
+    res = core.run_case_files(ID, "obsdc", DC_IMPORTS, {"ok": "fun o => P_C09DC o && agree_C09DC o"}, terms, per_file=25, tag=tag)
+    out = {"ok": res["ok"]}
+    for k in list(DC_CLAUSES) + ["agree_" + a for a in DC_AGREE]:
+        out[k] = []
+    failing = res["ok"][:30]
+    if failing:
+        preds = {k: v[0] for k, v in DC_CLAUSES.items()}
+        preds.update({"agree_" + a: f for a, f in DC_AGREE.items()})
+        det = core.run_case_files(ID, "obsdc", DC_IMPORTS, preds, [terms[j] for j in failing], per_file=5, tag=tag + "_detail")
+        for k, v in det.items():
+            out[k] = sorted(failing[j] for j in v)
+    return out
+
+
+def run_dcpipe(ctx) -> dict:
+    """`annet deploy --dont-commit`: _diff_and_patch(do_commit=False) -> cmd_paths -> apply_deploy_rulebook(do_commit=False)
+    on rulebooks with %force_commit rules at any depth, against Model/PatchDC.v; clauses of Spec/P_C09DC.v on the real outputs"""
+    rng = ctx.rng("c09-dcpipe")
+    n = 1500 if ctx.thorough else 170
+    cases = [gen_dcpipe(rng) for _ in range(n)]
+    outs = core.run_impl_sharded("c09_runner.py", [dc_payload(c) for c in cases])
+    bad = [i for i, o in enumerate(outs) if "fatal" in o or any("err" in r and r["err"] != "send_nl" for r in o.get("runs", []))]
+    for i in bad[:1]:
+        err = outs[i].get("fatal") or [r["err"] for r in outs[i]["runs"] if "err" in r][0]
+        ctx.add_violation(core.Violation(
+            signature="C09/implementation-raised",
+            what="_diff_and_patch / apply_deploy_rulebook with do_commit=False raised an unexpected exception: " + str(err)[-400:],
+            replay={"case": cases[i], "impl": outs[i], "dc_case": True}))
+    keep = [i for i in range(len(cases)) if i not in set(bad)]
+    kc, ko = [cases[i] for i in keep], [outs[i] for i in keep]
+    res = eval_dcpipe(kc, ko)
+    reported = set()
+    for j in res["ok"]:
+        failed = [k for k in DC_CLAUSES if j in res[k]]
+        if failed and signature(failed) not in reported:
+            reported.add(signature(failed))
+            ctx.add_violation(core.Violation(signature=signature(failed), what="; ".join(DC_CLAUSES[k][1] for k in failed),
+                                             replay={"case": kc[j], "impl": ko[j], "dc_case": True, "clauses": failed}))
+    if not reported:
+        for a in DC_AGREE:
+            for j in res["agree_" + a][:1]:
+                ctx.add_violation(core.Violation(
+                    signature=f"C09/model-impl-disagree/{a}",
+                    what=f"Coq model (Model/PatchDC.v) and implementation differ on '{a}' (correspondence broken); the "
+                         f"do_commit=False clauses hold on every implementation output explored",
+                    replay={"case": kc[j], "impl": ko[j], "dc_case": True, "correspondence": a}, no_input=True))
+    # measured: how often the flag matters, and where
+    differs = nested = genuine = asserted = 0
+    depth_hist: dict = {}
+    for c, o in zip(kc, ko):
+        if o["patch_t"] is None or o["patch_f"] is None:
+            asserted += 1
+            continue
+        rt, rf = patch_rows(o["patch_t"]), patch_rows(o["patch_f"])
+        differs += rt != rf
+        genuine += "commit" in rf
+
+        def commit_depths(items, d=0):
+            for i in items:
+                if i["row"] == "commit":
+                    yield d
+                yield from commit_depths(i["child"] or [], d + 1)
+        ds = set(commit_depths(o["patch_t"]))
+        nested += any(d > 0 for d in ds)
+        for d in ds:
+            depth_hist[d] = depth_hist.get(d, 0) + 1
+    return {"cases": len(cases), "kept": len(keep), "assertion_error_cases": asserted,
+            "cases_where_do_commit_changes_the_patch": differs,
+            "cases_with_a_commit_row_below_top_level_when_committing": nested,
+            "depths_of_commit_rows_when_committing": depth_hist,
+            "cases_with_a_genuine_commit_row_under_dont_commit": genuine,
+            "force_commit_rules_histogram": {str(k): sum(1 for c in cases if min(c["force_commit_rules"], 6) == k) for k in range(7)},
+            "disagreements": sum(len(res["agree_" + a]) for a in DC_AGREE)}
+
+
 def default_timeout_ms() -> int:
     txt = (core.COQ / "Gen" / "Src_apply.v").read_text()
     return int(re.search(r"default_timeout_s : nat := (\d+)%nat", txt).group(1)) * 1000
@@ -865,6 +1063,7 @@ def run(ctx):
             unmodelled[v] = um
             UNMODELLED[v] = um
     dlg = run_dialogs(ctx, dict(zip(all_vendors, rendered)))
+    dcp = run_dcpipe(ctx)
     cases = gen_cases(ctx, shipped_rules)
     # the shipped before/after corpus of tests/annet/test_patch (block-structured vendors), shipped rulebooks
     names = core.run_impl("c09_runner.py", [{"corpus_names": True}])[0]
@@ -988,16 +1187,19 @@ def run(ctx):
     outside = [j for j in res["wf"]]
     collapsed = [j for j in res["collapsed"]]
     ctx.coverage.update({
-        "evaluations": len(cases) * len(COMBOS),
+        "evaluations": sum(len(c.get("combos", COMBOS)) for c in cases) + dcp["cases"] * 2,
         "cases": len(cases),
         "distinct_nontrivial": nt,
         "rule": "PatchTrees: synthetic (depth<=4, empty child trees, vendor block headers, item contexts), from the real "
                 "_diff_and_patch on random rulebooks/config pairs, and around the shipped deploy rules; deploy rulebooks: random "
                 "(nesting<=3, *, ~, %timeout, dialogs, %ifcontext, %apply_logic, %send_nl) via compile_deploying_text and the "
-                "shipped *.deploy; every case under all four (do_commit, do_finalize); distinct by (vendor, deploy rulebook, "
-                "patch); non-trivial = nesting >= 2, >= 3 commands, and (for synthetic rulebooks) some command matched a rule",
+                "shipped *.deploy; every case under all four (do_commit, do_finalize), the _diff_and_patch family as two "
+                "observations (patch built with do_commit=True / False, deployed with the same flag); distinct by (vendor, deploy "
+                "rulebook, patch); non-trivial = nesting >= 2, >= 3 commands, and (for synthetic rulebooks) some command matched a "
+                "rule; plus the --dont-commit family (coverage.dont_commit_patches: %force_commit at any depth, measured how often "
+                "the flag changes the patch and at which depths the commit rows sit)",
         "samples": [rep(j) for j in range(min(2, len(kc)))],
-        "traces_validated_against_impl": len(keep) * len(COMBOS),
+        "traces_validated_against_impl": sum(len(cases[i].get("combos", COMBOS)) for i in keep) + dcp["cases"] * 2,
         "disagreements_checked": sum(len(res[f"agree_{a}"]) for a in AGREE),
         "kind_histogram": hist_kind, "vendor_histogram": hist_vendor, "patch_depth_histogram": hist_depth,
         "patches_with_empty_block": sum(1 for o in ko if has_empty_block(o["patch"])),
@@ -1017,6 +1219,7 @@ def run(ctx):
         "sessions_histogram": sess_hist,
         "twin_cases_same_text_different_params": n_twin_diff,
         "dialogs": dlg,
+        "dont_commit_patches": dcp,
         "corpus_instances_outside_domain": [
             {"sample": kc[j]["corpus"], "vendor": kc[j]["vendor"], "shown_lines": len(ko[j]["lines"]),
              "sent_commands": len(ko[j]["paths"]),
@@ -1030,6 +1233,8 @@ def run(ctx):
         "ASCII texts only",
         "hardware flags of the canonical model strings are read from the real HardwareView (C18 covers the resolution)",
         "the `timeout=` given to Command() inside apply() is always overwritten by fill_cmd_params and is not modelled",
+        "do_commit=False patches: the six common logics of Model/Patch.v; a vendor logic that sets rule['force_commit'] itself "
+        "(huawei.bgp.undo_commit) is not modelled",
     ]
 
 
@@ -1046,6 +1251,18 @@ def replay(ctx, doc):
         print("impl runs:", [(r["content"], r["answer"], r["hits"]) for r in out["runs"]])
         print("holds:", not res["holds"], "model agrees:", not res["agree"])
         return 1 if res["holds"] or res["agree"] else 0
+    if doc["replay"].get("dc_case"):
+        out = core.run_impl("c09_runner.py", [dc_payload(c)])[0]
+        if "fatal" in out:
+            print("impl:", out["fatal"])
+            return 1
+        res = eval_dcpipe([c], [out], tag="replay_dc")
+        failed = [k for k in DC_CLAUSES if res[k]]
+        print("patch (do_commit=True): ", out["patch_t"] and patch_rows(out["patch_t"]))
+        print("patch (do_commit=False):", out["patch_f"] and patch_rows(out["patch_f"]))
+        print("streams (do_commit=False):", [r.get("err") or r["cmds"] for r in out["runs"]])
+        print("holds:", not failed, "failed clauses:", failed, "model agrees:", {a: not res["agree_" + a] for a in DC_AGREE})
+        return 1 if failed else 0
     if c.get("deploying") is None:
         rr = core.run_impl("c09_runner.py", [{"render": c["vendor"]}])[0]
         ensure_modelled(compiled_pats(rr.get("compiled", [])))
